@@ -108,7 +108,7 @@ func sumUTXOs(m map[types.SiacoinOutputID]types.SiacoinElement) (c types.Currenc
 // of the wallet's unspent value, proofs are updated under core's
 // pre-conditions, and the revert restores outputs and events exactly.
 //
-//verif:harness prop=C06 tier=quick replay=interp require=applied,reverted bounds="wallet store with 0..2 outputs (symbolic values < 2^40); one block with: a miner payout to the wallet or to somebody else; optionally a v2 transaction spending a stored output and/or paying the wallet; optionally a resolved v2 contract whose host and/or renter output pays the wallet (symbolic values); an ephemeral output"
+//verif:harness prop=C06 tier=quick replay=interp require=applied,reverted bounds="wallet store with 0..2 outputs (symbolic values < 2^40); one block with: a miner payout to the wallet or to somebody else; optionally a v2 transaction spending a stored output and/or paying the wallet, optionally claiming siafunds (owner and claim address each the wallet or somebody else); optionally a resolved v2 contract whose host and/or renter output pays the wallet (symbolic values); an ephemeral output"
 func VerifH_C06_block() {
 	priv := types.NewPrivateKeyFromSeed(make([]byte, 32))
 	addr := types.StandardUnlockHash(priv.PublicKey())
@@ -159,10 +159,23 @@ func VerifH_C06_block() {
 			sces = append(sces, consensus.SiacoinElementDiff{SiacoinElement: foreign.Copy(), Spent: true})
 		}
 		txn.SiacoinOutputs = []types.SiacoinOutput{{Value: types.NewCurrency64(40), Address: pick("txn-pays-wallet")}, {Value: types.NewCurrency64(7), Address: other}}
+		var claim *types.SiacoinElement
+		if vapi.Bool("txn-claims-siafunds") {
+			// a siafund input: the claim output is created for the claim address,
+			// which need not be the owner of the siafunds
+			sfe := types.SiafundElement{ID: types.SiafundOutputID{0x5f}, StateElement: types.StateElement{LeafIndex: 70},
+				SiafundOutput: types.SiafundOutput{Value: 10, Address: pick("siafunds-are-the-wallets")}}
+			txn.SiafundInputs = append(txn.SiafundInputs, types.V2SiafundInput{Parent: sfe, ClaimAddress: pick("claim-pays-wallet")})
+			c := newElem(types.SiafundOutputID(sfe.ID).V2ClaimOutputID(), types.SiacoinOutput{Value: types.NewCurrency64(vapi.UBits("claim", 40)), Address: txn.SiafundInputs[0].ClaimAddress}, 155)
+			claim = &c
+		}
 		b.V2.Transactions = append(b.V2.Transactions, txn)
 		txid := txn.ID()
 		for i, o := range txn.SiacoinOutputs {
 			sces = append(sces, consensus.SiacoinElementDiff{SiacoinElement: newElem(txn.SiacoinOutputID(txid, i), o, 11), Created: true})
+		}
+		if claim != nil {
+			sces = append(sces, consensus.SiacoinElementDiff{SiacoinElement: claim.Copy(), Created: true})
 		}
 	}
 	if vapi.Bool("with-ephemeral") {
